@@ -519,11 +519,14 @@ func toInt(v any) (int, bool, bool) {
 	case json.Number:
 		i, err := v.Int64()
 		if err != nil {
-			if _, err = v.Float64(); err != nil {
+			// not in integer syntax: it may still be an integral value
+			// spelled like 1.0 or 1e0
+			d, err := decimal128.Parse(v.String())
+			if err != nil {
 				return 0, false, false
 			}
 
-			return 0, true, false
+			return toInt(d)
 		}
 
 		if i > math.MaxInt || i < math.MinInt {
